@@ -307,6 +307,10 @@ func checkC11(c *Check) {
 		c.Fail("C11-R2 lost instances: %d built pod specs / security contexts", nbuilt)
 	}
 
+	// what is deployed for a lease is that lease's manifest group: the cluster service hands every manager its own group
+	// (a pointer to a per-loop variable shared by all managers deploys the last lease's workloads into every namespace)
+	c.loopVarAddressEscapes("R3", []string{"provider/cluster", "provider/cluster/kube"})
+
 	// ---- R3 limits / requests
 	cont := l.Func(kubePkg, "deploymentBuilder", "container")
 	c.Analysed(fnName(cont))
